@@ -242,6 +242,33 @@ impl GetOp {
             pin_auth: if self.pin { Some(vec![1u8; 16].into()) } else { None }, pin_protocol: match self.cdh.last().copied().unwrap_or(0) % 3 { 0 => None, 1 => Some(1), _ => Some(2) } }
     }
 }
+/// a request as it arrives from a platform: encoded to CBOR and decoded again, with the option members that have
+/// their default value left out (rk = false, uv = false, up = true), and - when nothing is left - the options map too
+pub fn through_cbor<T: serde::Serialize + serde::de::DeserializeOwned>(req: T, drop_default_options: bool) -> T {
+    use ciborium::value::Value;
+    let mut buf = vec![];
+    if ciborium::ser::into_writer(&req, &mut buf).is_err() { return req; }
+    let Ok(mut v) = ciborium::de::from_reader::<Value, _>(buf.as_slice()) else { return req; };
+    if drop_default_options {
+        if let Value::Map(entries) = &mut v {
+            let mut drop_map = false;
+            for (k, val) in entries.iter_mut() {
+                let is_options = matches!(k, Value::Integer(i) if i128::from(*i) == 7 || i128::from(*i) == 5) && matches!(val, Value::Map(m) if m.iter().all(|(k, _)| matches!(k, Value::Text(t) if t == "rk" || t == "up" || t == "uv")));
+                if is_options {
+                    if let Value::Map(m) = val {
+                        m.retain(|(k, b)| match (k, b) { (Value::Text(t), Value::Bool(b)) => !((t == "up" && *b) || (t != "up" && !*b)), _ => true });
+                        if m.is_empty() { drop_map = true; }
+                    }
+                }
+            }
+            if drop_map { entries.retain(|(k, val)| !(matches!(k, Value::Integer(i) if i128::from(*i) == 7 || i128::from(*i) == 5) && matches!(val, Value::Map(m) if m.is_empty()))); }
+        }
+    }
+    let mut out = vec![];
+    if ciborium::ser::into_writer(&v, &mut out).is_err() { return req; }
+    ciborium::de::from_reader::<T, _>(out.as_slice()).unwrap_or(req)
+}
+
 fn hmac_input() -> passkey_types::ctap2::extensions::HmacGetSecretInput {
     passkey_types::ctap2::extensions::HmacGetSecretInput { key_agreement: ciborium::value::Value::Null, salt_enc: vec![0u8; 32].into(), salt_auth: vec![0u8; 16].into(), pin_uv_auth_protocol: None }
 }
@@ -281,6 +308,8 @@ fn run_generic<S: Inner + 'static>(ctx: &mut Ctx, prop: &str, w: &World, inner: 
     auth.set_make_credentials_with_signature_counter(w.counter_on);
     auth.set_make_credential_id_length(CredentialIdLength::from(w.id_len));
     if let Some(c) = w.hm.cfg() { auth = auth.hmac_secret(c); }
+    // the builder for the transport list (here: the default list again) keeps every other setting
+    if w.id_len % 2 == 0 { auth = auth.transports(vec![webauthn::AuthenticatorTransport::Internal, webauthn::AuthenticatorTransport::Hybrid]); }
     ctx.line(&format!("au.reset {} {} {} {} {}", prop, w.kind.name(), w.counter_on as u8, w.id_len, w.hm.name()), "");
     for p in &w.preload { ctx.line(&format!("au.load {}", passkey_line(p)), ""); }
     let mut last_id: Option<Vec<u8>> = None;
@@ -305,7 +334,8 @@ fn run_generic<S: Inner + 'static>(ctx: &mut Ctx, prop: &str, w: &World, inner: 
             Op::Make(m0) => {
                 let mut m1 = m0.clone(); m1.exclude = resolve(&m0.exclude, &saved_ids);
                 let m = &m1;
-                let req = m.real(Some(hmac_input()));
+                // half of the requests take the way a platform's request takes: through CBOR, defaults left out
+                let req = { let r = m.real(Some(hmac_input())); if m.cdh.get(1).copied().unwrap_or(0) % 2 == 0 { through_cbor(r, true) } else { r } };
                 announce(&format!("au.make {} {} {} N{}{}", m.enc(), st.uv.enc(), faults_s(&st.faults), cancel, tw));
                 let res = guarded(|| {
                     match st.cancel_after {
@@ -346,7 +376,7 @@ fn run_generic<S: Inner + 'static>(ctx: &mut Ctx, prop: &str, w: &World, inner: 
                 }
                 g1.allow = resolve(&g1.allow, &saved_ids);
                 let g = &g1;
-                let req = g.real(Some(hmac_input()));
+                let req = { let r = g.real(Some(hmac_input())); if g.cdh.get(1).copied().unwrap_or(0) % 2 == 0 { through_cbor(r, true) } else { r } };
                 announce(&format!("au.get {} {} {}{}{}", g.enc(), st.uv.enc(), faults_s(&st.faults), cancel, tw));
                 let res = guarded(|| {
                     match st.cancel_after {
